@@ -179,6 +179,17 @@ class Interp:
             if r:
                 self.oblige(kind, fr, node, what, self.path_goal(st), True, r)
                 return
+            # the same after the degenerate-case simplifications this path's facts allow (an operand known to be
+            # empty, a zero offset, ...), applied everywhere inside the terms
+            a2, b2 = deep_degenerate(st, a), deep_degenerate(st, b)
+            if (a2, b2) != (a, b):
+                if terms_equal(st, a2, b2):
+                    self.oblige(kind, fr, node, what, self.path_goal(st), True, "terms-equal")
+                    return
+                r = self.try_rules(st, a2, b2)
+                if r:
+                    self.oblige(kind, fr, node, what, self.path_goal(st), True, r)
+                    return
         if what.startswith("debug_assert"):
             # the library stating the contract of user-supplied code (DESIGN §4.5)
             for (a, b, origin) in st.tne:
